@@ -251,6 +251,74 @@ fn observe(g: &GameState, t: &mut Transcript) -> Vec<Action> {
     va
 }
 
+/// The same queries as `observe`, asked in a rotated order (each worker of the same-object scenario
+/// starts at a different query), recorded in the canonical order.
+fn ask(g: &GameState, q: usize) -> u64 {
+    match q % 7 {
+        0 => fp_str(&actions_text(&g.valid_actions())),
+        1 => fp_str(&actions_text(&g.valid_actions_no_rep())),
+        2 => g.transposition_hash(),
+        3 => match g.is_terminal() {
+            None => 0,
+            Some(arimaa_engine_step::Terminal::GoldWin) => 1,
+            Some(arimaa_engine_step::Terminal::SilverWin) => 2,
+        },
+        4 => g.can_pass(true) as u64 * 2 + g.can_pass(false) as u64,
+        5 => g.has_move(g.piece_board()).is_some() as u64,
+        _ => {
+            let pb = g.piece_board();
+            pb.all_pieces ^ pb.p1_pieces.rotate_left(7) ^ g.move_number() as u64
+        }
+    }
+}
+
+fn observe_rotated(g: &GameState, t: &mut Transcript, rot: usize) {
+    let mut slots = [0u64; 7];
+    for k in 0..7 {
+        let q = (k + rot) % 7;
+        slots[q] = ask(g, q);
+    }
+    for v in slots {
+        t.put(v);
+    }
+}
+
+/// Same-object scenario: one state object (not clones of it) is asked by several threads at the same
+/// time, every thread starting at a different query - readers of one transposition-table entry.
+fn same_object_run(state: &Arc<GameState>, threads: usize, reps: usize, first_query: usize, concurrent: bool) -> Vec<(u64, u64)> {
+    // the one thing the object is asked before the burst (a table entry has usually been looked at once);
+    // 7 = nothing
+    if first_query < 7 {
+        let _ = ask(state, first_query);
+    }
+    let work = move |g: &GameState, rot: usize| {
+        let mut t = Transcript::default();
+        for r in 0..reps {
+            observe_rotated(g, &mut t, rot + r * 3);
+        }
+        (t.h, t.items)
+    };
+    if !concurrent {
+        return (0..threads).map(|i| work(state, [0usize, 3, 1, 5, 4, 2][i % 6])).collect();
+    }
+    let barrier = Arc::new(Barrier::new(threads));
+    let gid = watch::new_group(threads, "same-object scenario");
+    let hs: Vec<_> = (0..threads)
+        .map(|i| {
+            let barrier = barrier.clone();
+            let g = state.clone();
+            std::thread::spawn(move || {
+                let _member = watch::enter(gid);
+                barrier.wait();
+                work(&g, [0usize, 3, 1, 5, 4, 2][i % 6])
+            })
+        })
+        .collect();
+    let out = hs.into_iter().map(|h| h.join().unwrap_or((0xdead, 0))).collect();
+    watch::close(gid);
+    out
+}
+
 fn expand(g: &GameState, depth: u8, t: &mut Transcript) {
     let va = observe(g, t);
     if depth == 0 || g.is_terminal().is_some() {
@@ -706,6 +774,49 @@ fn check_parts(start: &gen::Start, actions: &[Action], progs: &[Prog], aux: u64,
                 }
             }
             st.bump("sibling_scenarios");
+            // same-object scenario on the deepest of these states and on a state at the last step of the turn
+            let mut targets: Vec<Vec<Action>> = vec![];
+            if let Some(p) = paths.iter().max_by_key(|p| p.len()) {
+                targets.push(p.clone());
+                // extend to step 3 through rule-only steps that stay inside the turn
+                let mut g = sroot.clone();
+                let mut path = vec![];
+                for a in p.iter() {
+                    g = g.take_action(a);
+                    path.push(*a);
+                }
+                while g.is_play_phase() && g.current_step() < 3 && g.current_step() > 0 {
+                    let side = g.is_p1_turn_to_move();
+                    let next = g.valid_actions_no_rep().into_iter().find(|a| matches!(a, Action::Move(..)) && g.take_action(a).is_p1_turn_to_move() == side);
+                    match next {
+                        Some(a) => {
+                            g = g.take_action(&a);
+                            path.push(a);
+                        }
+                        None => break,
+                    }
+                }
+                if path.len() > p.len() {
+                    targets.push(path);
+                }
+            }
+            for (ti, path) in targets.iter().enumerate() {
+                for first_query in [1usize, 0, 3, 7] {
+                    let mk_state = |fresh: Arc<GameState>| -> Arc<GameState> {
+                        let mut g = build(fresh).unwrap();
+                        for a in path.iter() {
+                            g = g.take_action(a);
+                        }
+                        Arc::new(g)
+                    };
+                    let con = guard(|| same_object_run(&mk_state(mk().unwrap()), 6, 40, first_query, true)).map_err(|p| Fail::new("C18:concurrent_panic", p))?;
+                    let seq = guard(|| same_object_run(&mk_state(mk().unwrap()), 6, 40, first_query, false)).map_err(|p| Fail::new("C18:sequential_panic", p))?;
+                    for (i, (a, b)) in seq.iter().zip(con.iter()).enumerate() {
+                        ensure!(a == b, "C18:transcript", "same-object scenario (target {}, first query {}), thread {} of {}: one state object asked by several threads at the same time, each starting at a different query, gave a transcript (hash {:#x}, {} items) that differs from the same queries on one thread (hash {:#x}, {} items); state reached by {}", ti, first_query, i, seq.len(), b.0, b.1, a.0, a.1, actions_text(path));
+                    }
+                }
+            }
+            st.bump("same_object_scenarios");
             let sp = guard(|| {
                 paths.iter().filter(|p| {
                     let mut g = sroot.clone();
